@@ -9,7 +9,7 @@ PROPS_MODULE = "OxyModel.Props.C20"
 AUDIT = "OxyModel/Audit/C20.lean"
 THEOREMS = ["C20.C20_transparent", "C20.C20_decorate_only_cookies", "C20.C20_decisive_at", "C20.C20_decisive",
             "C20.C20_status_table", "C20.C20_response_limit", "C20.C20_abort_restores", "C20.C20_abort_state",
-            "C20.C20_failed_hijack_relayed", "C20.C20_info_implicit_final_counterexample"]
+            "C20.C20_failed_hijack_relayed", "C20.C20_info_implicit_final_counterexample", "C20.C20_retry_documented"]
 RACE = False
 JOBS = 12
 BATCH_TIMEOUT = 600
@@ -26,6 +26,8 @@ ASSUMPTIONS = [
     "a handler leaving by panic(http.ErrAbortHandler): what the client sees of that exchange is not compared (canonicalised as `aborted`), only that the handler ran once and what later requests get",
     "handlers that send 1xx informational responses also set their final status explicitly: outside this domain the unchanged code is NOT transparent (Buffer drops the body, theorem C20_info_implicit_final_counterexample) and the generator stays inside it",
     "a Buffer swallows 1xx responses and Flush by design; a front writer without Hijack/Flush (cfg front=) cannot be given these capabilities by the stack: the monitor demands them only where the front offers them",
+    "a retrying buffer sees the same handler behaviour on every attempt of one request (the script is fixed per scenario); retry predicates other than IsNetworkError() && Attempts() <= 2 are C07",
+    "Verbose/Debug/Logger options (layer option /v) are modelled as having no effect on the request/response path",
     "handlers do not write a body with 204/304, do not set Content-Length/Grpc-Status themselves and requests carry no sticky cookie; HEAD requests and buffer retries are not generated",
     "flush=1 means the flushed bytes were read by the client while the handler was still running (negative answer only after 1 s and 500 executed polls)",
     "an HTTP exchange that hits the 25 s client timeout is repeated once as a fresh request (machine-wide stalls during memory exhaustion by unrelated processes were observed); a reproducible hang still fails",
@@ -44,12 +46,16 @@ SKIP_HDR = {"Date", "Content-Length", "Transfer-Encoding", "Connection"}
 # ---------------------------------------------------------------- scenario syntax
 def parse_layer(tok):
     p = tok.split("/")
-    l = {"kind": p[0], "sticky": False, "fb": "", "q": 0, "r": 0, "p": 1000}
+    l = {"kind": p[0], "sticky": False, "fb": "", "q": 0, "r": 0, "p": 1000, "retry": False, "verbose": False}
     for o in p[1:]:
         if o == "s":
             l["sticky"] = True
         elif o == "fr":
             l["fb"] = "r"
+        elif o == "t":
+            l["retry"] = True
+        elif o == "v":
+            l["verbose"] = True
         elif o[0] == "f":
             l["fb"] = o[1:]
         elif o[0] == "q":
@@ -115,6 +121,8 @@ def monitor(ops, outs):
             continue
         if f[0] == "cfg":
             stack, iv, sc = parse_cfg(l)
+            if o.startswith("env-error") or o.startswith("panic hx: no loopback"):
+                return bad  # the host ran out of ports: says nothing about the code (core still reports the divergence from the model)
             if o != "ok":
                 bad.append("setup: the stack could not be built or driven to its limit: %s" % o)
                 return bad
@@ -128,6 +136,8 @@ def monitor(ops, outs):
                 blen = int(t[5:])
             if t == "abort=1":
                 abort = True
+        if o.startswith("env-error"):
+            continue
         if abort and o.startswith("aborted "):
             # the handler ran and panicked; legitimate only if no layer had a reason to answer by itself, and only once
             if iv is not None and stack[iv]["kind"] in STATEFUL or any(lay["kind"] == "buffer" and lay["q"] > 0 and blen > lay["q"] for lay in stack):
@@ -174,8 +184,11 @@ def monitor(ops, outs):
                 bad.append("transparent: handler invoked %d times" % invoked)
             continue  # response over a buffer maximum: not a non-intervening configuration
         # ---- transparent
-        if invoked != 1:
-            bad.append("transparent: no layer has a reason to intervene but the handler was invoked %d times (stack %s)" % (invoked, [x["kind"] for x in stack]))
+        # exactly once -- except the documented retry: a buffer with Retry("IsNetworkError() && Attempts() <= 2") repeats a 502/504 twice
+        n_retry = sum(1 for lay in stack if lay["kind"] == "buffer" and lay["retry"])
+        want_inv = 3 ** n_retry if (sc["status"] in (502, 504) and not hij) else 1
+        if invoked != want_inv:
+            bad.append("transparent: no layer has a reason to intervene but the handler was invoked %d times, expected %d (stack %s, handler status %s)" % (invoked, want_inv, [x["kind"] + ("/t" if x["retry"] else "") for x in stack], sc["status"]))
             continue
         want_status = sc["status"] if sc["status"] is not None else 200
         if status != want_status:
@@ -183,7 +196,10 @@ def monitor(ops, outs):
         bb = body_bytes(sc["chunks"])
         want_body = "%d:%08x" % (len(bb), zlib.adler32(bb) & 0xffffffff)
         if kv["body"] != want_body:
-            bad.append("transparent: handler body %s, client got %s" % (want_body, kv["body"]))
+            if known_shape(stack, sc) and not hij:
+                bad.append("info-implicit-final: handler sent 1xx %s and then its body without a final WriteHeader behind a Buffer: body %s, client got %s" % (sc["info"], want_body, kv["body"]))
+            else:
+                bad.append("transparent: handler body %s, client got %s" % (want_body, kv["body"]))
         want_h = [(k, v) for k, v in sc["hdrs"] if k not in SKIP_HDR] + [("X-Req-Len", str(blen))]
         cookies = ["sk%d=http://b0;_Path=/" % i for i, lay in enumerate(stack) if lay["sticky"] and lay["kind"] in ("roundrobin", "rebalancer")]
         keys = sorted(set(k for k, _ in want_h) | set(k for k, _ in hdrs))
@@ -214,6 +230,27 @@ def monitor(ops, outs):
         if not hij and not has_buffer and kv.get("info", "-") != (",".join(map(str, sc["info"])) or "-"):
             bad.append("transparent: informational responses %s, client saw %s" % (sc["info"], kv.get("info")))
     return bad
+
+
+def known_shape(stack, sc):
+    """exactly the recorded finding buffer_1xx_implicit_final: a buffer in the stack, 1xx sent, no final WriteHeader, non-empty body"""
+    return (any(lay["kind"] == "buffer" for lay in stack) and bool(sc["info"]) and sc["status"] is None and sum(sc["chunks"]) > 0)
+
+
+def _match_buffer_1xx(ops, outs, msgs):
+    cfgs = [l for l in ops if l.split() and l.split()[0] == "cfg"]
+    if not cfgs or not msgs:
+        return False
+    for l in cfgs:
+        stack, iv, sc = parse_cfg(l)
+        if not known_shape(stack, sc):
+            return False
+    return all(m.startswith("info-implicit-final:") for m in msgs)
+
+
+KNOWN_MATCHERS = {"buffer_1xx_implicit_final": _match_buffer_1xx}
+# every distinct kind of monitor message is reported once (core dedups on the first word); the recorded finding must not crowd out others
+MAX_REPORTS = 100000
 
 
 def nontrivial(ops, outs):
@@ -263,12 +300,16 @@ def describe(ops, outs, hist):
 # ---------------------------------------------------------------- generators
 def layer_token(rng, kind, force_q=False):
     t = kind
+    if rng.random() < 0.2:
+        t += "/v"
+    if kind == "buffer" and rng.random() < 0.3:
+        t += "/t"
     if kind in ("roundrobin", "rebalancer") and rng.random() < 0.45:
         t += "/s"
     if kind == "cbreaker":
         r = rng.random()
         if r < 0.3:
-            t += "/f" + rng.choice(["418", "429", "200", "500", "503"])
+            t += "/f" + rng.choice(["418", "429", "200", "500", "503", "502", "504"])
         elif r < 0.45:
             t += "/fr"
     if kind == "ratelimit" and rng.random() < 0.6:
@@ -355,12 +396,16 @@ def gen(rng, tier):
         front = rng.choice(["nohijack", "noflush", "plain"]) if rng.random() < 0.25 else None
         lines = ["cfg stack=%s intervene=%s %sh=%s" % (",".join(toks) or "-", "none" if iv is None else iv,
                                                        "front=%s " % front if front else "", script(rng))]
+        if iv is None and "buffer" in kinds and front is None and rng.random() < 0.02:
+            # the recorded open finding buffer_1xx_implicit_final (matched, not an alarm)
+            lines = ["cfg stack=%s intervene=none h=status:none;hdr:Content-Type=text/verif;body:5,3;flush:0;hijack:0;info:103" % ",".join(toks)]
         lines += reqs(rng, toks, iv)
         yield lines
 
 
 FIXED_FLUSH = "status:201;hdr:Content-Type=text/verif,X-A=1,Set-Cookie=hc=1;body:5,7;flush:1;hijack:0;info:103"
 FIXED_EARLY = "status:none;hdr:Content-Type=text/verif;body:3;flush:0;hijack:0;early:1"
+FIXED_RETRY = "status:%s;hdr:Content-Type=text/verif;body:4;flush:0;hijack:0"
 FIXED_FAILHIJACK = "status:501;hdr:Content-Type=text/verif,X-A=1;body:4;flush:0;hijack:1"
 FIXED_HIJACK = "status:none;hdr:Content-Type=text/verif,X-A=1,X-A=2;body:3,2000;flush:0;hijack:1"
 
@@ -370,10 +415,13 @@ def exhaustive(tier):
         return
     for d in range(0, 5):
         for kinds in itertools.permutations(KINDS, d):
-            toks = [k + ("/s" if k in ("roundrobin", "rebalancer") else "") + ("/q16" if k == "buffer" else "") for k in kinds]
+            toks = [k + ("/s" if k in ("roundrobin", "rebalancer") else "") + ("/q16/t" if k == "buffer" else "")
+                    + ("/v" if (d + len(k)) % 2 else "") for k in kinds]
             sv = ",".join(toks) or "-"
             yield ["cfg stack=%s intervene=none h=%s" % (sv, FIXED_FLUSH), "req", "req body=16"]
             yield ["cfg stack=%s intervene=none h=%s" % (sv, FIXED_EARLY), "req"]
+            if "buffer" in kinds:
+                yield ["cfg stack=%s intervene=none h=%s" % (sv, FIXED_RETRY % ("502", "503", "504")[d % 3]), "req", "req body=2"]
             yield ["cfg stack=%s intervene=none front=%s h=%s" % (sv, ("nohijack", "plain")[d % 2], FIXED_FAILHIJACK), "req"]
             yield ["cfg stack=%s intervene=none h=%s" % (sv, FIXED_HIJACK), "req body=9 abort=1", "req body=9", "req abort=1", "req abort=1", "req"]
             for i, k in enumerate(kinds):
